@@ -61,6 +61,55 @@ def contains_yield(stmts):
     return False
 
 
+_MUTATORS = ("append", "extend", "pop", "insert", "sort", "clear", "update", "add", "setdefault", "remove", "discard", "reverse",
+             "move_to_end", "popitem")
+
+
+def _rebound_first(body, name):
+    """does every iteration rebind `name` (plain top-level assignment) before anything could mutate the object it denotes?"""
+    def mutates(node):
+        for n in ast.walk(node):
+            if isinstance(n, (ast.Subscript, ast.Attribute)) and isinstance(n.ctx, (ast.Store, ast.Del)):
+                r = n
+                while isinstance(r, (ast.Subscript, ast.Attribute)):
+                    r = r.value
+                if isinstance(r, ast.Name) and r.id == name:
+                    return True
+            if isinstance(n, ast.Call) and isinstance(n.func, ast.Attribute) and n.func.attr in _MUTATORS:
+                r = n.func.value
+                while isinstance(r, (ast.Subscript, ast.Attribute)):
+                    r = r.value
+                if isinstance(r, ast.Name) and r.id == name:
+                    return True
+            if isinstance(n, ast.AugAssign) and isinstance(n.target, ast.Name) and n.target.id == name:
+                return True
+        return False
+    for st in body:
+        if isinstance(st, (ast.Assign, ast.AnnAssign)):
+            targets = st.targets if isinstance(st, ast.Assign) else [st.target]
+            names = {n.id for t in targets for n in ast.walk(t) if isinstance(n, ast.Name) and isinstance(n.ctx, ast.Store)}
+            if name in names and not mutates(st.value if st.value is not None else ast.Pass()):
+                return True
+        if mutates(st):
+            return False
+    return False
+
+
+def _escaping_names(body):
+    """names whose value may be stored into a container (or yielded) somewhere in the statements"""
+    out = set()
+    for st in body:
+        for n in ast.walk(st):
+            if isinstance(n, ast.Call) and isinstance(n.func, ast.Attribute) and n.func.attr in _MUTATORS:
+                out |= {a.id for a in n.args if isinstance(a, ast.Name)}
+            if isinstance(n, ast.Assign) and any(isinstance(t, (ast.Subscript, ast.Attribute)) for t in n.targets) \
+                    and isinstance(n.value, ast.Name):
+                out.add(n.value.id)
+            if isinstance(n, (ast.Yield, ast.YieldFrom)) and isinstance(n.value, ast.Name):
+                out.add(n.value.id)
+    return out
+
+
 class StmtExec(Exec):
     def __init__(self, ctx, registry):
         super().__init__(ctx)
@@ -579,6 +628,10 @@ class StmtExec(Exec):
         outs = []
         # exit
         ex = h.copy()
+        # a name stored into a container by some iteration may still be shared after the loop
+        esc = {n for n in _escaping_names(s.body) if isinstance(ex.env.get(n), V) and ex.env[n].ty.mutable}
+        if esc:
+            ex.env["__aliased__"] = frozenset(set(ex.env.get("__aliased__", ())) | esc)
         if is_range:
             ex.assume(i_sym.t >= hi)
         else:
@@ -617,8 +670,15 @@ class StmtExec(Exec):
                 if isinstance(n, ast.Name) and isinstance(it.env.get(n.id), V) and it.env[n.id].ty.mutable:
                     al.add(n.id)
             it.env["__aliased__"] = frozenset(al)
+            # (the loop target itself is rebound by every iteration)
+            head_al = set(it.env.get("__aliased__", ())) | {n.id for n in ast.walk(s.target) if isinstance(n, ast.Name)}
             for o in self.run_block(s.body, it):
                 if o.kind in ("normal", "continue"):
+                    # the loop head state is reused for every iteration: aliases created by one iteration must not outlive it
+                    extra = {n for n in set(o.st.env.get("__aliased__", ())) - head_al if not _rebound_first(s.body, n)}
+                    if extra:
+                        raise Unsupported("names %s are still shared with a container at the end of a loop iteration (line %d)"
+                                          % (sorted(extra), s.lineno))
                     self.check_inv("inv_pres", spec, o.st, s.lineno, k)
                     self.ctx.paths += 1
                 elif o.kind == "break":
